@@ -125,7 +125,7 @@ static unsigned int irc_pton_ip4(const char *input, unsigned int *pbits,
             *pbits = bits;
         return pos;
     case '.':
-        if (input[++pos] == '.')
+        if ((input[++pos] == '.') || (dots >= 3))
             return 0;
         ip |= part << (24 - 8 * dots++);
         part = 0;
